@@ -168,6 +168,7 @@ struct Checker<'a> {
     slot_before: Vec<u8>,
     mprotect_faults_before: u64,
     counted_installed: bool,
+    cur_boolean: bool,
     last_exit_ok: bool,
     lifetime: usize,
     op_ordinal: u64,
@@ -423,7 +424,8 @@ impl<'a> Checker<'a> {
                 if patched.contains(&(s, e)) {
                     found.push((
                         "bystander-modified".into(),
-                        vec!["C03"],
+                        // forcing a boolean must have "no other observable effect" (C10)
+                        if self.cur_boolean { vec!["C03", "C10"] } else { vec!["C03"] },
                         format!("{when}: bystander #{bi} at {:#x} was never named in an installation but its bytes changed", b),
                     ));
                 }
@@ -514,6 +516,7 @@ impl<'a> Checker<'a> {
 
 impl<'a> Hooks for Checker<'a> {
     fn before_op(&mut self, i: usize, op: &Install) {
+        self.cur_boolean = op.kind == "boolean";
         let t = self.sc.targets[op.target];
         let (s, _) = slot_of(t);
         with_world(|w| w.mark((self.lifetime as u32) << 16 | i as u32));
@@ -785,6 +788,7 @@ pub fn execute(sc: &SimScenario) -> Outcome {
         slot_before: Vec::new(),
         mprotect_faults_before: 0,
         counted_installed: false,
+        cur_boolean: false,
         last_exit_ok: false,
         lifetime: 0,
         op_ordinal: 0,
